@@ -34,8 +34,13 @@ class Ev:
         self.per_arg = per_arg     # the accessor caches per argument: replay it on its whole domain
 
 
+def _np_args(a):
+    import numpy as np
+    return tuple(np.int64(x) if isinstance(x, int) and not isinstance(x, bool) else x for x in a)
+
+
 def explore(pid, build, oracle, events, resets, state_key, content_key, rep: Report, input_class, base_detail,
-            max_states=400, max_depth=None):
+            max_states=400, max_depth=None, domain_cap=None, numpy_args=True):
     """
     build()            -> fresh real object
     events             -> list of Ev; resets -> dict name -> fn(obj)
@@ -50,6 +55,13 @@ def explore(pid, build, oracle, events, resets, state_key, content_key, rep: Rep
     ev_names = [e.name for e in events] + list(resets)
     evmap = {e.name: e for e in events}
     domains = {e.name: list(e.domain(oracle)) for e in events}
+    if domain_cap is not None:
+        # large specimens: argument domains are thinned by a fixed stride (reported: 'domain_cap')
+        for k, d in domains.items():
+            if len(d) > domain_cap:
+                step = -(-len(d) // domain_cap)
+                domains[k] = d[::step]
+                rep.count("domains_thinned")
 
     def light(m, evn):
         if evn in resets:
@@ -118,6 +130,21 @@ def explore(pid, build, oracle, events, resets, state_key, content_key, rep: Rep
                         rep.violation(f"{pid}.{evn}", ev.callee, "mismatch:" + verdict[0], input_class(warm),
                                       dict(base_detail, history=list(hist), args=list(a), got=g, want=verdict[1]))
                 obs = tuple(obs)
+                if numpy_args and len(hist) <= 1:
+                    # argument-form deviation: the same queries with numpy integers instead of Python ints (in the
+                    # fresh state and in every state one event away): the answers must be the same
+                    for a, want_obs in zip(doms, obs):
+                        if not a or not all(isinstance(x, int) for x in a):
+                            continue
+                        rep.evaluations += 1
+                        try:
+                            g2 = tup(fn(m, *_np_args(a)))
+                        except Exception as ex:   # noqa
+                            g2 = ("raise", type(ex).__name__)
+                        if g2 != want_obs:
+                            rep.violation(f"{pid}.{evn}.numpy_integer_arguments", ev.callee, "mismatch:answer_depends_on_int_type",
+                                          input_class(warm), dict(base_detail, history=list(hist), args=list(a), got=g2, want=want_obs))
+                            break
                 if evn in first_obs:
                     if first_obs[evn][0] != obs:
                         rep.violation(pid + ".same_answer_in_every_state", ev.callee, "mismatch:order_dependent", input_class(warm),
